@@ -63,8 +63,9 @@ def run(ctx) -> None:
                     if not (isinstance(c, ast.Compare) and len(c.ops) == 1):
                         continue
                     op, rhs = c.ops[0], c.comparators[0]
-                    if member_of(rhs) is not None and isinstance(op, (ast.Eq, ast.Is, ast.NotEq, ast.IsNot)):
-                        r = member_of(rhs) == m
+                    mem = member_of(rhs) or member_of(c.left)
+                    if mem is not None and isinstance(op, (ast.Eq, ast.Is, ast.NotEq, ast.IsNot)):
+                        r = mem == m
                         val[src(c)] = r if isinstance(op, (ast.Eq, ast.Is)) else not r
                     elif isinstance(rhs, (ast.Tuple, ast.List, ast.Set)) and all(member_of(e) for e in rhs.elts) and isinstance(op, (ast.In, ast.NotIn)):
                         r = m in [member_of(e) for e in rhs.elts]
